@@ -105,6 +105,27 @@ def lexer_iteration(model: Model, state: str, filter_depth: int = 0, in_function
                 ex = ctx.char_excl.get(ch.id)
                 if ex:
                     s.excluded[off] = set(ex)
+        # characters pinned by startswith(<constant>, <offset>) tests (Lexer.accept and friends)
+        for key_, val_ in ctx.world.items():
+            info_ = ctx.atom_info.get(key_)
+            if not (info_ and info_["kind"] == "strpred" and info_["recv"] is q and info_["name"] == "startswith"):
+                continue
+            a_ = info_["args"]
+            if not (a_ and isinstance(a_[0], Const) and isinstance(a_[0].value, str) and a_[0].value):
+                continue
+            off_ = 0
+            if len(a_) > 1:
+                if not isinstance(a_[1], IntV):
+                    continue
+                d_ = a_[1].lin - p.lin
+                if not d_.is_const():
+                    continue
+                off_ = d_.const
+            if val_:
+                for j_, ch_ in enumerate(a_[0].value):
+                    fixed.setdefault(off_ + j_, ch_)
+            elif len(a_[0].value) == 1:
+                s.excluded.setdefault(off_, set()).add(a_[0].value)
         k = 0
         pre = []
         while k in fixed:
